@@ -227,7 +227,7 @@ impl Property for C14 {
         "C14"
     }
     fn rule(&self) -> String {
-        "case kinds. One: a single -a or -b value from the documented grammar: 4 date-time shapes x fraction {none,3,6} x zone {none, +hhmm, +hh:mm, +hh, every unambiguous upper-case name} x spacing variants; 3 bare-date shapes; '+epoch'; relative '+/-' followed by any non-empty subset and order of Nw Nd Nh Nm Ns with multi-digit counts (now fixed through the S4_VERIF_NOW hook); under -t in 15-minute steps. Other: one absolute bound and the other given as '@+/-...' relative to it. Reject: certainly-invalid values (month 13, day 00/32, hour 25, minute 60, garbage, unknown zone, every ambiguous zone name, both bounds '@', '@' without other bound, after > before). oracle: independent resolution => expected instant, observed (a) in the `Datetime filter -a/-b` summary lines (second resolution) and (b) to the microsecond through a probe log with messages at X-1s, X-1us, X, X+1us, X+1s and the inclusive window semantics; rejections: non-zero exit status and empty stdout. non-trivial = zone present or fraction present or relative form; distinct = hash(case).".into()
+        "case kinds. One: a single -a or -b value from the documented grammar: 4 date-time shapes x fraction {none,3,6} x zone {none, +hhmm, +hh:mm, +hh, every unambiguous upper-case name} x spacing variants; 3 bare-date shapes; '+epoch'; relative '+/-' followed by any non-empty subset and order of Nw Nd Nh Nm Ns with multi-digit counts (now fixed through the S4_VERIF_NOW hook); under -t in 15-minute steps. Other: one absolute bound and the other given as '@+/-...' relative to it. Reject: certainly-invalid values (month 13, day 00/32, hour 25, minute 60, garbage, unknown zone, every ambiguous zone name; near misses: any valid date-time shape x fraction or bare date followed, attached or spaced, by an ambiguous or unknown zone name in either letter case; both bounds '@', '@' without other bound, after > before). oracle: independent resolution => expected instant, observed (a) in the `Datetime filter -a/-b` summary lines (second resolution) and (b) to the microsecond through a probe log with messages at X-1s, X-1us, X, X+1us, X+1s and the inclusive window semantics; rejections: non-zero exit status and empty stdout. non-trivial = zone present or fraction present or relative form; distinct = hash(case).".into()
     }
     fn assumptions(&self) -> Vec<String> {
         vec!["`now` is fixed with the S4_VERIF_NOW hook (guard --cfg s4_verif)".into(), "a repeated unit in a relative value keeps its last occurrence (documented by the project's unit tests)".into()]
@@ -278,7 +278,34 @@ impl Property for C14 {
             (Some(""), None, "empty"),
         ])
         .prop_map(|(a, b, why)| Case::Reject { a: a.map(|s| s.to_string()), b: b.map(|s| s.to_string()), why: why.to_string() });
-        prop_oneof![8 => one, 3 => other, 1 => bad].boxed()
+        // near misses built from the valid grammar: a valid date-time or bare date followed (attached or after a space)
+        // by an ambiguous or unknown zone name, in either letter case
+        let base = prop_oneof![
+            5 => abs_strategy().prop_map(|mut a| {
+                a.zone = ZoneSp::None;
+                Arg::Abs(a)
+            }),
+            1 => (0u8..3, 400u32..47000).prop_map(|(shape, day)| Arg::Date { shape, day }),
+        ];
+        let nearmiss = (base, any::<u16>(), any::<bool>(), any::<bool>(), any::<bool>(), 0u8..8).prop_map(|(arg, ni, is_after, lower, attach, unk)| {
+            let (mut text, _) = render_arg(&arg, 0, 0);
+            let amb = ambiguous();
+            let (mut name, why) = if unk == 0 { (["QQQ", "XYZ", "FOOO", "ZZT"][ni as usize % 4].to_string(), "unknown zone name") } else { (amb[ni as usize % amb.len()].clone(), "ambiguous zone name") };
+            if lower && tz_table().iter().any(|(k, v)| v.is_none() && *k == name.to_ascii_lowercase()) {
+                name = name.to_ascii_lowercase();
+            }
+            if !attach {
+                text.push(' ');
+            }
+            text.push_str(&name);
+            let why = format!("{} {} after a valid {}", why, if attach { "attached" } else { "spaced" }, if matches!(arg, Arg::Date { .. }) { "date" } else { "date-time" });
+            if is_after {
+                Case::Reject { a: Some(text), b: None, why }
+            } else {
+                Case::Reject { a: None, b: Some(text), why }
+            }
+        });
+        prop_oneof![8 => one, 3 => other, 1 => bad, 2 => nearmiss].boxed()
     }
     fn exec(&self, case: &Case, _ctx: &Ctx) -> Outcome {
         let sc = Scratch::new();
